@@ -1062,6 +1062,11 @@ func genDatas(t *rapid.T, vars []dataVar) []*dataSrc {
 				l := dataLine{Name: pads[np]}
 				np++
 				for k, nk := 0, 1+uni(t, 4, "padlen"); k < nk; k++ {
+					if uni(t, 3, "padstring") == 0 {
+						// a string: one cell per character (a comma or a blank inside it is a character)
+						l.Exprs = append(l.Exprs, `"`+rapid.SampledFrom([]string{"A", "AB", "ok", "A,B", "a b", "x1", "0x00", "7"}).Draw(t, "str")+`"`)
+						continue
+					}
 					l.Exprs = append(l.Exprs, byteExpr(t, val(), unsized))
 				}
 				d.Lines = append(d.Lines, l)
